@@ -293,19 +293,19 @@ def impl_cmdline(arg):
         sys.argv = argv
     return [observe(E, buf, [], idof), st]
 
-def err_to_wire(e):
-    """attributes of a real scanner error, in the wire format of kinds and contexts"""
-    from pybtex.scanner import TokenRequired
-    kind = [1, norm(e.error_type), opt(e.lineno)]
-    if isinstance(e, TokenRequired):
-        info = e.error_context_info
-        ctx = [1, norm(e.parser.text), opt(info[0]), info[1]]
-    else:
-        ctx = [0]
-    return kind, ctx
+def public_context(e):
+    """get_context() as a res of an optional string, through the public method only"""
+    try:
+        c = e.get_context()
+        if c is not None and not isinstance(c, str):
+            return [2]
+        return [0, [] if c is None else [norm(c)]]
+    except Exception:
+        return [2]
 
 def impl_scanner(arg):
-    from pybtex.scanner import Scanner, Literal, PybtexSyntaxError
+    from pybtex.scanner import Scanner, Literal
+    from pybtex.exceptions import PybtexError
     from pybtex.errors import format_error
     text, lit, fn = S(arg[0]), S(arg[1]), arg[2]
     filename = None if fn == [] else (S(fn[1]) if fn[0] == 0 else 5)
@@ -313,15 +313,123 @@ def impl_scanner(arg):
     try:
         tok = sc.required([Literal(lit)])
         return [0, norm(tok.value)]
-    except PybtexSyntaxError as e:
-        kind, ctx = err_to_wire(e)
-        return [1, kind, ctx, norm(e.args[0]), call_impl_noerr(format_error, e, 'ERROR: ')]
+    except PybtexError as e:
+        ln = getattr(e, 'lineno', None)
+        return [1, opt(ln if isinstance(ln, int) else None), public_context(e), call_impl_noerr(format_error, e, 'ERROR: ')]
+
+def canon_context_value(c):
+    """source lines exactly; of the marker line only its column (the glyphs are wording)"""
+    if c[0] != 0 or c[1] == [] or c[1] == [[]]:
+        return c[:1] + [[]] if c[0] == 0 else c
+    lines = S(c[1][0]).split('\n')
+    marker = lines[-1] if len(lines) > 1 else ''
+    return [0, norm(lines[:-1] if len(lines) > 1 else lines), len(marker) - len(marker.lstrip(' '))]
 
 def impl_splitlines(arg):
     return norm(S(arg[1]).splitlines(bool(arg[0])))
 
 def impl_int(arg):
     return norm('{0}'.format(arg))
+
+# ---- real user input, three ways: every problem rendered (a) when it is raised in strict mode,
+# (b) as printed in non-strict mode, (c) from the captured list after the run has finished
+def _render_now(e):
+    from pybtex.errors import format_error
+    try:
+        r = format_error(e, 'WARNING: ')
+        return [0, norm(r)] if isinstance(r, str) else [2]
+    except Exception:
+        return [2]
+
+def _three_renderings(thunk):
+    """-> [strict, nonstrict, capture]
+       strict    = [rendering of the error raised] or []        (rendered in the except clause)
+       nonstrict = [printed text, error_code, fatal rendering?]  (fatal rendered in the except clause)
+       capture   = [[renderings of the collected errors, made after the block was left], fatal rendering?]
+       a foreign exception in any run -> [9] (another property's business)"""
+    from pybtex.exceptions import PybtexError
+    import pybtex.errors as E
+    clear_memos()
+    E_, buf = reset_state(1, 0)
+    strict = []
+    try:
+        thunk()
+    except PybtexError as ex:
+        strict = [_render_now(ex)]
+    except Exception:
+        return [9]
+    clear_memos()
+    E_, buf = reset_state(0, 0)
+    fatal = []
+    try:
+        thunk()
+    except PybtexError as ex:
+        fatal = [_render_now(ex)]
+    except Exception:
+        return [9]
+    nonstrict = [norm(buf.getvalue()), E.error_code, fatal]
+    clear_memos()
+    E_, buf = reset_state(1, 0)
+    lst, fatal = [], []
+    try:
+        with E.capture() as l:
+            lst = l
+            thunk()
+    except PybtexError as ex:
+        fatal = [_render_now(ex)]
+    except Exception:
+        return [9]
+    capture = [[_render_now(e) for e in list(lst)], fatal, [] if E.captured_errors is None else [1]]
+    reset_state(1, 0)
+    return [strict, nonstrict, capture]
+
+def impl_real_bib(arg):
+    import pybtex.database as D
+    text = S(arg)
+    return _three_renderings(lambda: D.parse_string(text, 'bibtex'))
+
+def impl_real_bst(arg):
+    from pybtex.bibtex.interpreter import Interpreter
+    from pybtex.bibtex import bst as BSTM
+    from pybtex.database.input.bibtex import Parser
+    text = S(arg)
+    return _three_renderings(lambda: Interpreter(Parser, 'utf-8').run(BSTM.parse_string(text), [], [], min_crossrefs=2))
+
+def impl_real_aux(arg):
+    from pybtex import auxfile
+    d = tempfile.mkdtemp(prefix='c16aux')
+    try:
+        p = os.path.join(d, 'x.aux')
+        with open(p, 'w', encoding='utf-8', newline='') as f:
+            f.write(S(arg))
+        return _three_renderings(lambda: auxfile.parse_file(p, 'utf-8'))
+    finally:
+        shutil.rmtree(d, ignore_errors=True)
+
+def oracle_real(out):
+    if out == [9]:
+        return None
+    strict, (printed, code, nfatal), (captured, cfatal, capleft) = out
+    if capleft:
+        return 'captured_errors is not None after the capture block'
+    for r in captured + cfatal + nfatal + strict:
+        if r[0] != 0:
+            return 'a reported problem cannot be rendered'
+    printed = S(printed)
+    want = ''.join(S(r[1]) + '\n' for r in captured)
+    if printed != want:
+        return ('the problems rendered after the run (capture mode) differ from the warnings printed when they were '
+                'reported (non-strict mode): %r vs %r' % (want, printed))
+    if cfatal != nfatal:
+        return 'the fatal error renders differently in capture mode (%r) and non-strict mode (%r)' % (
+            [S(r[1]) for r in cfatal], [S(r[1]) for r in nfatal])
+    first = captured[:1] or cfatal
+    if strict != first:
+        return 'strict mode raised %r but the first problem renders as %r after the run' % (
+            [S(r[1]) for r in strict], [S(r[1]) for r in first])
+    if (code != 0) != bool(captured):
+        return '%d problems reported but error_code is %r' % (len(captured), code)
+    return None
 
 E_SCH = ('T', 'N', 'S', 'X', 'X', 'X')
 COMP_SCH = ('T', ('L', E_SCH), 'X')
@@ -335,6 +443,9 @@ FUNCS = {
     7: ('Scanner.required error + format_error', impl_scanner, ('T', 'S', 'S', 'X')),
     8: ('str.splitlines', impl_splitlines, ('T', 'B', 'S')),
     9: ("'{0}'.format(int)", impl_int, 'I'),
+    10: ('parse_string(.bib) in strict / non-strict / capture mode: renderings of every problem', impl_real_bib, 'S'),
+    11: ('.bst parsed and run in strict / non-strict / capture mode: renderings of every problem', impl_real_bst, 'S'),
+    12: ('.aux parsed in strict / non-strict / capture mode: renderings of every problem', impl_real_aux, 'S'),
 }
 
 def _noout(g):
@@ -344,6 +455,8 @@ def canon(fn, out):
     """compare only what the property talks about: whether an error renders, which problems went
     where and in which order, the mode cells, the exit status -- never the wording of a message
     (the oracle checks, within the implementation, that renderings contain the message)"""
+    if fn in (10, 11, 12):
+        return []        # not modelled: the parsers belong to C10/C15/C20; oracle only
     try:
         if fn in (1, 2, 3):
             return out[:1]
@@ -356,7 +469,7 @@ def canon(fn, out):
         if fn == 7:
             if out[0] == 0:
                 return out
-            return [1, out[1][2:], out[2], out[4][:1]]
+            return [1, out[1], canon_context_value(out[2]), out[3][:1]]
     except Exception:
         pass
     return out
@@ -537,6 +650,8 @@ def oracle_cmdline(arg, out):
     return None
 
 def oracle(fn, arg, out):
+    if fn in (10, 11, 12):
+        return oracle_real(out)
     if fn == 1:
         rec, prefix = arg
         if not wellformed(rec):
@@ -580,11 +695,11 @@ def oracle(fn, arg, out):
     if fn == 7:
         if out[0] == 0:
             return None
-        r = out[4]
-        if r[0] != 0:
+        r = out[3]
+        if r[0] != 0 or out[2][0] != 0:
             return 'the error raised by the scanner cannot be rendered'
-        if S(out[3]) not in S(r[1]):
-            return 'rendering lacks the message'
+        if out[2][1] and out[2][1][0] and not subseq_in_order(S(out[2][1][0]).splitlines(), S(r[1]), ''):
+            return 'rendering lacks the source context'
         return None
     return None
 
@@ -760,6 +875,36 @@ def gen(tier, rng):
     for i in range(N):
         text = rnd_text(rng, rng.randint(0, 3), ' \n\r\t\x0c\x85 　') + rnd_text(rng, rng.randint(0, 12), 'xy \n\r\x0b{}')
         yield ('rnd_scanner', 7, [text, rng.choice(['x', 'xy', '{', '']), rng.choice(FNAMES)])
+    # ---- real user input, corrupted, with several commands after the bad one
+    NR = 400 if quick else 6000
+    bib_toks = ['@', '{', '}', '"', ',', '=', '#', '(', ')', '\n', ' ', 'key1', '\r\n', '\x0c', 'undefinedmacro']
+    tail = '@misc{t1, note = {fine}}\n\n@misc{t2,\n  note = "also fine"\n}\n@comment{x}\n@misc{t3, note = 3}\n'
+    for t in ['@article{k, a = }\n' + tail, '@article{k, a = "x" # }\n' + tail, '@a{k,\n\n a = {x}\n b = {y}}\n' + tail,
+              '@article{k, a = b}\n@article{k, a = {x}, A = {y}}\n' + tail, '@a{k, a = {x}\n\n' + tail, BIB + '@article\n' + tail,
+              '@a{k, author = {A, B, C, D}}\n@a{k, x = }' + tail]:
+        yield ('real_bib', 10, t)
+    for i in range(NR):
+        t = BIB
+        for _ in range(rng.randint(1, 3)):
+            t = corrupt(rng, t, bib_toks)
+        yield ('real_bib', 10, t + rng.choice([tail, tail, '', '\n@misc{z, k = 1}\n']))
+    bst_tail = 'FUNCTION {g} { "w1" warning$ "w2" warning$ }\nEXECUTE {g}\nEXECUTE {g}\n'
+    for t in ['FUNCTION {f} { "w" warning$ #1 "a" * }\nEXECUTE {f}\n' + bst_tail, bst_tail + 'FUNCTION {f\n\n', bst_tail + 'foo {x}\n' + bst_tail,
+              bst_tail + 'FUNCTION {h} { #-1 int.to.chr$ }\nEXECUTE {h}\n']:
+        yield ('real_bst', 11, t)
+    for i in range(NR // 2):
+        t = BST + bst_tail
+        for _ in range(rng.randint(1, 2)):
+            t = corrupt(rng, t, ['{', '}', '"', '#', "'", ' ', '\n', 'f', 'pop$', 'EXECUTE', '%', ':=', 'warning$'])
+        yield ('real_bst', 11, t)
+    aux_tail = '\\citation{d}\n\\citation{D}\n\\bibstyle{again}\n\\relax\n\\bibdata{again}\n\\citation{e}\n'
+    for t in [AUX + aux_tail, aux_tail, '\\citation{a,A,a}\n' + AUX + aux_tail, '\\bibstyle{s}\n' + aux_tail]:
+        yield ('real_aux', 12, t)
+    for i in range(NR // 2):
+        t = AUX + aux_tail
+        for _ in range(rng.randint(1, 2)):
+            t = corrupt(rng, t, ['\\', '{', '}', '\n', 'citation', 'bibstyle', 'bibdata', 'A', ',', '\r\n'])
+        yield ('real_aux', 12, t)
     # ---- malformed: inconsistent scanner states, negative positions
     for i in range(N // 3):
         text = rnd_text(rng, rng.randint(0, 12), 'ab \n\r\x0c')
@@ -786,6 +931,8 @@ def nontrivial(fn, arg, out):
         return out[0] == 1
     if fn == 8:
         return len(out) >= 2
+    if fn in (10, 11, 12):
+        return True
     return True
 
 def describe_err(r):
@@ -808,6 +955,8 @@ def describe(fn, arg):
         return {'text': S(arg[0]), 'required literal': S(arg[1]), 'filename': arg[2]}
     if fn == 8:
         return {'keepends': arg[0], 'text': S(arg[1])}
+    if fn in (10, 11, 12):
+        return {'kind': {10: '.bib', 11: '.bst', 12: '.aux'}[fn], 'text': S(arg)}
     return {'value': arg}
 
 RULE = ('quick tier -- exhaustive: str.splitlines over {a,\\n,\\r,\\v,U+2028}^<=5; Scanner/LowLevelParser error contexts over all texts of length <= 4 over 4-letter alphabets x every position x lineno/start values; every attribute combination of the remaining error classes; every history of length <= 5 over {set_strict_mode(True/False), enter, exit, raise-in-inner, raise-to-top, report_error} from both initial modes; every computation of <= 3 reports x 4 endings in all modes and through CommandLine; Scanner.required on all texts of length <= 5 over {space,\\n,\\r,x,y,\\f}.  Random: error records, histories of <= 14 operations, computations, scanner texts; malformed: inconsistent scanner states.  distinct = distinct (function, argument); non-trivial = multi-line rendering / at least two events / at least one report / an error raised.  '
@@ -838,6 +987,8 @@ def _sig_F27(kind, fn, arg, detail):
         return False
     if fn == 1:
         return arg[0][2] == [1] and 'format_error raised' in str(detail)
+    if fn == 11:
+        return 'int.to.chr$' in S(arg) and 'cannot be rendered' in str(detail)
     if fn == 4:
         m = re.search(r'reporting problem (\d+) raised a foreign exception', str(detail))
         return bool(m) and any(o[0] == 5 and o[1][0] == int(m.group(1)) and o[1][2] == [1] for o in arg[2])
@@ -974,9 +1125,15 @@ def err_to_record(e, eid=0):
     from pybtex.exceptions import PybtexError
     from pybtex.scanner import PybtexSyntaxError, TokenRequired
     from pybtex.auxfile import AuxDataError
-    f = e.filename
+    f = getattr(e, 'filename', None)
     fn = [] if f is None else ([0, f] if isinstance(f, str) else [1])
     t = type(e)
+    # the attributes below are implementation details: when they are not there the object is not
+    # translated (counted as skipped), never a crash of the check
+    if isinstance(e, TokenRequired) and not (hasattr(e, 'error_context_info') and hasattr(getattr(e, 'parser', None), 'text')):
+        return None
+    if isinstance(e, AuxDataError) and not (hasattr(getattr(e, 'context', None), 'lineno') and hasattr(getattr(e, 'context', None), 'line')):
+        return None
     if len(e.args) != 1 or not isinstance(e.args[0], str):
         return None
     msg = e.args[0]
@@ -1056,9 +1213,9 @@ def three_modes(thunk):
     # premises of the theorems scanner_errors_render / bib_ctx_wellformed on the real error objects
     from pybtex.scanner import TokenRequired
     for e in list(L) + [x for x in (fc, fn_, fs) if x is not None]:
-        if isinstance(e, TokenRequired):
-            info = e.error_context_info
-            text = e.parser.text
+        info = getattr(e, 'error_context_info', None)
+        text = getattr(getattr(e, 'parser', None), 'text', None)
+        if isinstance(e, TokenRequired) and isinstance(info, tuple) and isinstance(text, str):
             if len(info) == 3:
                 st, ln, pos = info
                 if not (st is not None and 0 <= st < pos <= len(text)):
